@@ -222,6 +222,25 @@ def run_case(desc):
             elif prev is not None and mt < prev:
                 bad = f"modified time decreased across successive writes: {prev} -> {mt}"
             prev = mt
+        if bad is None and mount == "direct":
+            # successive writes whose file-system times increase across a second boundary (set with os.utime, so the
+            # clause does not depend on how fast this machine writes): the reported time must never decrease
+            S = 1_600_000_000 + r.randint(0, 10**7)
+            fr = sorted(r.sample([998_900_000, 999_400_000, 999_499_999, 999_500_000, 999_600_000, 999_949_999, 999_950_000,
+                                  999_999_000, 999_999_500, 999_999_999], 5)) + [10**9, 10**9 + 400_000, 10**9 + 600_000_000]
+            prev_t = None
+            for ns in fr:
+                os.utime(base, ns=(S * 10**9 + ns, S * 10**9 + ns))
+                mt = store.get_modified_time()
+                if mt is None:
+                    bad = "get_modified_time() is None for an existing file"
+                    break
+                if prev_t is not None and mt < prev_t[1]:
+                    bad = (f"modified time decreased although the file's mtime increased: mtime {prev_t[0]} ns -> {S * 10**9 + ns} ns "
+                           f"reported {prev_t[1].isoformat()} -> {mt.isoformat()}")
+                    break
+                prev_t = (S * 10**9 + ns, mt)
+            mtime_seq_checked = 1
     except BaseException as e:
         import traceback
 
@@ -254,7 +273,7 @@ def run_case(desc):
         dig = hashlib.sha1(pickle.dumps(value) if kind != "text" else value.encode("utf-8", "surrogatepass")).hexdigest()[:12]
     except Exception:
         dig = str(desc["seed"])
-    res = {"status": "ok", "counters": {"round_trips": 1, f"kind_{kind}": 1, f"mount_{mount}": 1}, "sets": {"features": feats},
+    res = {"status": "ok", "counters": {"round_trips": 1, "mtime_sequences_across_second_boundary": int(mount == "direct"), f"kind_{kind}": 1, f"mount_{mount}": 1}, "sets": {"features": feats},
            "nontrivial": nontrivial, "sig": f"{kind}|{mount}|{pathkind}|{enc}|{dig}"}
     if desc["seed"] % 1500 == 0 or bad:
         res["sample"] = {"kind": kind, "mount": mount, "path": pathkind, "encoding": enc, "value": _short(value)}
